@@ -572,15 +572,24 @@ def rule_purity(ctx, ix, reach):
             if isinstance(s, (ast.Assign, ast.AnnAssign)) and s.value is not None and isinstance(s.value, ast.Call) and u(s.value.func) in ("count", "itertools.count", "iter"):
                 ctx.instance("C15.counters")
                 ctx.fail("C15.counters", f"{ix.rel(m)}:{u(s)[:60]}", "module-level counter: generated names depend on what was generated before")
-    for q, expect in (
-        ("tensora.desugar._desugar_expression.desugar_assignment", "ids = count()"),
-        ("tensora.desugar._to_iteration_graphs.to_iteration_graphs", "count(1)"),
-    ):
+    # every counter that numbers tensors / sum nodes is created inside a function of the request (a local bound to
+    # count(...)), in the functions that start a request's numbering
+    for q in ("tensora.desugar._desugar_expression.desugar_assignment", "tensora.desugar._to_iteration_graphs.to_iteration_graphs"):
         ctx.instance("C15.counters")
-        if expect in u(ix.func(q).node):
-            ctx.ok("C15.counters", f"{q.split('tensora.', 1)[1]}:{expect}")
+        f = ix.funcs.get(q)
+        key = f"{q.split('tensora.', 1)[1]}:per-request counter"
+        if f is None:
+            ctx.fail("C15.counters", key, "function not found")
+            continue
+        made = [
+            n
+            for n in ast.walk(f.node)
+            if isinstance(n, ast.Call) and u(n.func) in ("count", "itertools.count")
+        ]
+        if made:
+            ctx.ok("C15.counters", key)
         else:
-            ctx.fail("C15.counters", f"{q.split('tensora.', 1)[1]}:{expect}", "counter is not created per request in this function")
+            ctx.fail("C15.counters", key, "no counter is created per request in this function (ids would continue from earlier requests, or repeat)")
 
 
 def rule_cache_key(ctx, ix):
